@@ -137,7 +137,7 @@ def tensor_method(it, tv, name, args, kwargs, node):
 
     # ---------------- identity / storage
     if name in IDENTITY or (name == "float" and kind == "tensor") or name == "type":
-        return VTens(tv.obj, tv.view, tv._shape)
+        return tv  # torch returns self when no conversion is needed: may be the very same object
     if name == "clone" or name == "copy":
         r = it.fresh(t, shape, kind, node)
         r.obj.valkind = tv.obj.valkind
@@ -396,6 +396,12 @@ def _view_shape(shape, dims):
     new = tuple(dims)
     if tuple(new) == tuple(shape):
         return new, ("to",)
+    fa, fb = _factors(shape), _factors(new)
+    if fa is not None and fb is not None:
+        if fa == fb:
+            return new, ("view", "regroup:" + ",".join(str(len(_factors((d,)))) for d in new))
+        if sorted(map(str, fa)) == sorted(map(str, fb)):
+            raise ShapeMismatch("reshape regroups axes %s as %s: the row-major order of the merged axes differs" % (shape, new))
     # merging of trailing dims expressed explicitly, e.g. view(B, nh*nv)
     if len(new) <= len(shape) and tuple(new[:-1]) == tuple(shape[: len(new) - 1]):
         merged = list(shape[len(new) - 1:])
@@ -404,6 +410,20 @@ def _view_shape(shape, dims):
                 return new, ("flatten_last2",)
     # param.size()-style unflatten
     return new, ("view", tuple(str(d) for d in new))
+
+
+def _factors(shape):
+    out = []
+    for d in shape:
+        if d == UNK:
+            return None
+        if isinstance(d, tuple) and d[0] == "flat":
+            out.extend(d[1])
+        elif isinstance(d, tuple):
+            return None
+        elif d != 1:
+            out.append(d)
+    return out
 
 
 def ndarray_method(it, tv, name, args, kwargs, node):
